@@ -176,6 +176,8 @@ def run(chk):
     r2_multi_run(chk, repo)
     r3_work_queue(chk, repo)
     r4_publish_after_construct(chk, repo)
+    r5_forwarding(chk, repo)
+    r6_temp_plugin_window(chk, repo)
 
 
 def r1_races(chk, repo):
@@ -420,8 +422,68 @@ def r4_publish_after_construct(chk, repo):
             chk.check(bad is None, "C15.R4", f, st, f"{bad} after it was put into the shared cache: a concurrent worker can pick up the half-built plugin (and a failure here leaves a broken plugin cached for all later runs)",
                       site_text=f"__get_plugin: `{head(st, 50)}` does not touch the published plugin", site={"function": f.qualname, "after_publish": norm(st)[:80]}, nontrivial=bad is not None)
 
+# ------------------------------------------------------------------------------------ R5
+def r5_forwarding(chk, repo):
+    chk.describe("C15.R5", "the multi-run branch of a Context method hands every argument on to multi_run that the single-run branch uses (a many-runs call behaves like the sequence of single-run calls)")
+    R = "C15.R5"
+    n = 0
+    for f in repo.cls("Context").methods.values():
+        for c in calls_in(f.node):
+            if not ((call_name(c) or "").endswith("multi_run") and c.args and norm(c.args[0]) == f"self.{f.name}"):
+                continue
+            n += 1
+            br = enclosing(stmt_of(c), (ast.If,))
+            chk.check(br is not None, R, f, stmt_of(c), "multi-run call is not one branch of a many-runs / one-run decision", site_text=f"{f.qualname}: if many runs: multi_run(self.{f.name}, ...)")
+            if br is None:
+                continue
+            mine = br.body if any(stmt_of(c) is x or any(stmt_of(c) is y for y in ast.walk(x)) for x in br.body) else br.orelse
+            other = br.orelse if mine is br.body else br.body
+            params = set(f.params) - {"self", f.params[1] if len(f.params) > 1 else ""}
+            used_other = {x.id for st in other for x in ast.walk(st) if isinstance(x, ast.Name) and isinstance(x.ctx, ast.Load)} & params
+            # a single-run branch may be the fall-through after the if (make): then take the rest of the function
+            if not other:
+                after = [st for st in f.node.body if st.lineno > br.end_lineno]
+                used_other = {x.id for st in after for x in ast.walk(st) if isinstance(x, ast.Name) and isinstance(x.ctx, ast.Load)} & params
+            fwd = {k.arg for k in c.keywords if k.arg} | {x.id for a in c.args for x in ast.walk(a) if isinstance(x, ast.Name)}
+            for k in c.keywords:
+                if k.arg is None and isinstance(k.value, ast.Name):
+                    fwd.add(k.value.id)
+                elif k.arg is not None and isinstance(k.value, ast.Name):
+                    fwd.add(k.value.id)
+            missing = sorted(p for p in used_other if p not in fwd)
+            chk.check(not missing, R, f, stmt_of(c), f"the multi-run branch does not pass {missing} on to multi_run although the single-run branch uses it: a list of runs is then processed differently from the same runs one by one (e.g. `save=` ignored)",
+                      site_text=f"{f.qualname}: all arguments of the single-run branch forwarded to multi_run", site={"function": f.qualname, "rule": "arguments forwarded"})
+    chk.floor(R, "multi_run call sites that re-enter the same method", n, 1)
+
+
+# ------------------------------------------------------------------------------------ R6
+def r6_temp_plugin_window(chk, repo):
+    chk.describe("C15.R6", "the temporary merge plugin of a multi-target request is removed from the shared registry right after the components are assembled, before the (lazily consumed) generator yields anything: the registration never outlives the planning step")
+    R = "C15.R6"
+    f = repo.func("Context.get_iter", CONTEXT)
+    cfg = cfg_of(f)
+    regs = [n for n in cfg.stmt_nodes() if not isinstance(n.stmt, COMPOUND) and node_calls(n, lambda c, nm: nm == "self.register")]
+    dels = [n for n in cfg.stmt_nodes() if isinstance(n.stmt, ast.Delete) and any(norm(t).startswith("self._plugin_class_registry[") for t in n.stmt.targets)]
+    yields = [n for n in cfg.stmt_nodes() if not isinstance(n.stmt, COMPOUND) and any(isinstance(x, (ast.Yield, ast.YieldFrom)) for x in ast.walk(n.stmt))]
+    comps = [n for n in cfg.stmt_nodes() if not isinstance(n.stmt, COMPOUND) and node_calls(n, lambda c, nm: nm == "self.get_components")]
+    chk.check(bool(regs) and bool(dels) and bool(yields) and bool(comps), R, f, None, "get_iter no longer registers / removes a temporary plugin around get_components", site_text="get_iter: register temp plugin ... get_components ... cleanup")
+    if not (regs and dels and yields and comps):
+        return
+    loop_of = lambda n: enclosing(n.stmt, (ast.For,))
+    cl = [loop_of(d) for d in dels if loop_of(d) is not None]
+    clean = lambda n: n.kind == "stmt" and isinstance(n.stmt, ast.For) and n.stmt in cl
+    after_yield = cfg.reachable(yields, "nrx")
+    late = [d for d in dels if d in after_yield]
+    chk.check(not late, R, f, late[0].stmt if late else None, "the temporary plugin is removed only after the generator has started yielding (e.g. in a finally at its end): while the caller consumes the chunks the registration stays in the shared registry, and a worker finishing its run deletes the registration another worker has just made", site_text="get_iter: cleanup happens before the first yield", site={"function": f.qualname, "rule": "cleanup before first yield"})
+    ok, _p = cfg.every_path(comps, yields, clean, "n")
+    chk.check(ok, R, f, comps[0].stmt, "a path from get_components to the first yield skips the cleanup of temporary plugins", site_text="get_iter: cleanup on every path from get_components to the first yield")
+
 
 WITNESSES = [
+    W("get_array forgets save= for many runs", "C15.R5", CONTEXT,
+      "targets=targets,\n                log=self.log,\n                save=save,\n                max_workers=max_workers,", "targets=targets,\n                log=self.log,\n                max_workers=max_workers,"),
+    W("temporary plugin cleaned up after the first chunk", "C15.R6", CONTEXT,
+      "# Cleanup the temp plugins\n        for k in list(self._plugin_class_registry.keys()):\n            if k.startswith(\"_temp\"):\n                del self._plugin_class_registry[k]\n\n        seen_a_chunk = False", "seen_a_chunk = False"),
     W("top-up reads the caller's unsorted list", "C15.R3", UTILS,
       "for r in itertools.islice(run_id_numpy, task_index, task_index + len(futures_done)):", "for r in itertools.islice(run_ids, task_index, task_index + len(futures_done)):"),
     W("top-up sized by a counter of successes", "C15.R3", UTILS,
